@@ -6,6 +6,7 @@ import (
 	"sort"
 	"testing"
 
+	"github.com/scottyw/tetromino/gameboy/controller"
 	"pgregory.net/rapid"
 
 	"verifharness/machine"
@@ -47,6 +48,7 @@ type c07Case struct {
 	Pre     []c07W `json:"pre"`    // writes that build the machine state from power-on
 	Run     int    `json:"run"`    // hardware cycles after the preamble (at least 170 when the preamble touches FF46)
 	Writes  []c07W `json:"writes"` // the writes under test, checked one by one
+	Keys    []int  `json:"keys,omitempty"` // buttons held down (controller.Button values) when the writes are made
 }
 
 type c07State struct {
@@ -54,6 +56,7 @@ type c07State struct {
 	cart, romSize, ramSize uint8
 	pre                    []c07W
 	run                    int
+	keys                   []int
 }
 
 var c07APURunning = []c07W{{0xff26, 0x80}, {0xff25, 0xff}, {0xff24, 0x77}, {0xff12, 0xf0}, {0xff14, 0x80}, {0xff17, 0xf0}, {0xff19, 0x80},
@@ -68,18 +71,19 @@ func c07Cat(ws ...[]c07W) []c07W {
 }
 
 var c07States = []c07State{
-	{"rom-only/lcd-on/power-on", 0x00, 0, 0, nil, 700},
-	{"mbc1/ram-on-mode1/lcd-off", 0x03, 2, 3, []c07W{{0x0000, 0x0a}, {0x4000, 0x01}, {0x6000, 0x01}, {0xa010, 0x33}, {0xff40, 0x11}, {0x8000, 0x12}, {0xfe00, 0x34}, {0xc000, 0x56}}, 1000},
-	{"mbc1/lcd-on/apu-running/timer-running", 0x03, 2, 3, c07Cat([]c07W{{0x0000, 0x0a}, {0xff06, 0xf0}, {0xff07, 0x05}, {0xff41, 0x78}, {0xff45, 0x20}}, c07APURunning), 1500},
-	{"mbc2/ram-on/lcd-off/apu-off", 0x06, 1, 0, []c07W{{0x0000, 0x0a}, {0x2100, 0x03}, {0xa000, 0x05}, {0xff40, 0x00}, {0xff26, 0x00}}, 500},
-	{"mbc3/ram-bank-2/lcd-on/sweep", 0x10, 6, 4, []c07W{{0x0000, 0x0a}, {0x4000, 0x02}, {0x2000, 0x05}, {0xa000, 0x77}, {0xff10, 0x79}, {0xff12, 0xf0}, {0xff13, 0x00}, {0xff14, 0x87}, {0xff41, 0x40}, {0xff45, 0x40}}, 1200},
-	{"mbc5/ram-on/lcd-off/length-counters", 0x1b, 2, 3, []c07W{{0x0000, 0x0a}, {0x4000, 0x03}, {0x2000, 0x07}, {0xff40, 0x11}, {0xff11, 0x3f}, {0xff12, 0xf0}, {0xff14, 0xc0}, {0xff20, 0x3f}, {0xff21, 0xf1}, {0xff23, 0xc0}}, 2000},
-	{"mbc3/clock-register-selected/lcd-off", 0x10, 6, 4, []c07W{{0x0000, 0x0a}, {0x4000, 0x08}, {0x6000, 0x00}, {0x6000, 0x01}, {0xff40, 0x00}}, 300},
-	{"mbc1/lcd-off/all-stat-sources/lyc-eq-ly", 0x03, 2, 3, []c07W{{0x0000, 0x0a}, {0xff41, 0x78}, {0xff45, 0x00}, {0xff40, 0x11}, {0xff0f, 0x00}}, 3100},
+	{"rom-only/lcd-on/power-on", 0x00, 0, 0, nil, 700, nil},
+	{"mbc1/ram-on-mode1/lcd-off", 0x03, 2, 3, []c07W{{0x0000, 0x0a}, {0x4000, 0x01}, {0x6000, 0x01}, {0xa010, 0x33}, {0xff40, 0x11}, {0x8000, 0x12}, {0xfe00, 0x34}, {0xc000, 0x56}}, 1000, nil},
+	{"mbc1/lcd-on/apu-running/timer-running", 0x03, 2, 3, c07Cat([]c07W{{0x0000, 0x0a}, {0xff06, 0xf0}, {0xff07, 0x05}, {0xff41, 0x78}, {0xff45, 0x20}}, c07APURunning), 1500, nil},
+	{"mbc2/ram-on/lcd-off/apu-off", 0x06, 1, 0, []c07W{{0x0000, 0x0a}, {0x2100, 0x03}, {0xa000, 0x05}, {0xff40, 0x00}, {0xff26, 0x00}}, 500, nil},
+	{"mbc3/ram-bank-2/lcd-on/sweep", 0x10, 6, 4, []c07W{{0x0000, 0x0a}, {0x4000, 0x02}, {0x2000, 0x05}, {0xa000, 0x77}, {0xff10, 0x79}, {0xff12, 0xf0}, {0xff13, 0x00}, {0xff14, 0x87}, {0xff41, 0x40}, {0xff45, 0x40}}, 1200, nil},
+	{"mbc5/ram-on/lcd-off/length-counters", 0x1b, 2, 3, []c07W{{0x0000, 0x0a}, {0x4000, 0x03}, {0x2000, 0x07}, {0xff40, 0x11}, {0xff11, 0x3f}, {0xff12, 0xf0}, {0xff14, 0xc0}, {0xff20, 0x3f}, {0xff21, 0xf1}, {0xff23, 0xc0}}, 2000, nil},
+	{"mbc3/clock-register-selected/lcd-off", 0x10, 6, 4, []c07W{{0x0000, 0x0a}, {0x4000, 0x08}, {0x6000, 0x00}, {0x6000, 0x01}, {0xff40, 0x00}}, 300, nil},
+	{"mbc1/lcd-off/all-stat-sources/lyc-eq-ly", 0x03, 2, 3, []c07W{{0x0000, 0x0a}, {0xff41, 0x78}, {0xff45, 0x00}, {0xff40, 0x11}, {0xff0f, 0x00}}, 3100, nil},
 	{"rom-only/lcd-on/stat-sources/lyc-reached/odd-sequencer-step/lengths-at-1", 0x00, 0, 0, []c07W{{0xff41, 0x78}, {0xff45, 0x16}, {0xff26, 0x80}, {0xff25, 0xff}, {0xff11, 0x3f}, {0xff12, 0xf0}, {0xff14, 0x80},
-		{0xff16, 0x3f}, {0xff17, 0xf0}, {0xff19, 0x80}, {0xff1a, 0x80}, {0xff1b, 0xff}, {0xff1c, 0x20}, {0xff1e, 0x80}, {0xff20, 0x3f}, {0xff21, 0xf0}, {0xff23, 0x80}}, 2600},
-	{"mbc5/lcd-on-line-0/odd-sequencer-step/timer-about-to-overflow", 0x1b, 2, 3, c07Cat([]c07W{{0x0000, 0x0a}, {0xff06, 0xfe}, {0xff05, 0xff}, {0xff07, 0x05}, {0xff41, 0x40}, {0xff45, 0x00}}, c07APURunning), 17556 + 2050},
-	{"mbc1/2k-ram/lcd-off/wave-running", 0x03, 1, 1, []c07W{{0x0000, 0x0a}, {0xa000, 0x99}, {0xff40, 0x00}, {0xff1a, 0x80}, {0xff1c, 0x40}, {0xff1d, 0x00}, {0xff1e, 0x87}}, 777},
+		{0xff16, 0x3f}, {0xff17, 0xf0}, {0xff19, 0x80}, {0xff1a, 0x80}, {0xff1b, 0xff}, {0xff1c, 0x20}, {0xff1e, 0x80}, {0xff20, 0x3f}, {0xff21, 0xf0}, {0xff23, 0x80}}, 2600, nil},
+	{"mbc5/lcd-on-line-0/odd-sequencer-step/timer-about-to-overflow", 0x1b, 2, 3, c07Cat([]c07W{{0x0000, 0x0a}, {0xff06, 0xfe}, {0xff05, 0xff}, {0xff07, 0x05}, {0xff41, 0x40}, {0xff45, 0x00}}, c07APURunning), 17556 + 2050, nil},
+	{"rom-only/lcd-on/buttons-held-with-no-group-selected", 0x00, 0, 0, []c07W{{0xff00, 0x30}, {0xff0f, 0x00}, {0xffff, 0x1f}}, 900, []int{4, 3, 6}},
+	{"mbc1/2k-ram/lcd-off/wave-running", 0x03, 1, 1, []c07W{{0x0000, 0x0a}, {0xa000, 0x99}, {0xff40, 0x00}, {0xff1a, 0x80}, {0xff1c, 0x40}, {0xff1d, 0x00}, {0xff1e, 0x87}}, 777, nil},
 }
 
 func c07KindOf(cart uint8) int {
@@ -316,6 +320,12 @@ func c07RunInner(c c07Case, st *c07Stats, step *int, phase *string) (sig string,
 	for i := 0; i < c.Run; i++ {
 		hw.HW()
 	}
+	for _, k := range c.Keys {
+		if k < 0 || k > 7 {
+			return "bad-case", fmt.Errorf("button %d", k)
+		}
+		hw.C.ButtonAction(controller.Button(k), true)
+	}
 	var a, b c07Snap
 	before, after := &a, &b
 	*phase = "snapshot"
@@ -403,7 +413,7 @@ func (e *c07Enum) finish(t *testing.T) {
 }
 
 func c07CaseFor(s c07State, ws []c07W) c07Case {
-	return c07Case{State: s.name, Cart: s.cart, RomSize: s.romSize, RamSize: s.ramSize, Pre: s.pre, Run: s.run, Writes: ws}
+	return c07Case{State: s.name, Cart: s.cart, RomSize: s.romSize, RamSize: s.ramSize, Pre: s.pre, Run: s.run, Writes: ws, Keys: s.keys}
 }
 
 // c07Mix is a small deterministic hash for the "random" value of the sweeps.
@@ -419,7 +429,7 @@ var c07Boundaries = []int{0x0000, 0x00ff, 0x0100, 0x1fff, 0x2000, 0x2fff, 0x3000
 	0xc000, 0xddff, 0xde00, 0xdfff, 0xe000, 0xfdff, 0xfe00, 0xfe9f, 0xfea0, 0xfeff}
 
 func TestC07(t *testing.T) {
-	c := vf.New(t, "C07", "from 11 machine states (every controller type, LCD on/off, every STAT source selected with LYC = LY, APU on/off with channels, sweep and length counters running incl. counters at 1 on an odd sequencer step, timer running and about to overflow, clock register selected, 2 KiB RAM): "+
+	c := vf.New(t, "C07", "from 12 machine states (every controller type, LCD on/off, every STAT source selected with LYC = LY, APU on/off with channels, sweep and length counters running incl. counters at 1 on an odd sequencer step, timer running and about to overflow, buttons held with no group selected, clock register selected, 2 KiB RAM): "+
 		"I/O sweep FF00-FFFF x 16 values (quick) / all 256 (thorough), one write per fresh machine; memory sweep 0000-FEFF x {00, FF, pseudo-random} over region boundaries and every 37th address (quick) / every address (thorough), 32 writes per machine; "+
 		"plus rapid (state, extra preamble writes, cycles, 1-6 writes). All 64 KiB are read before and after every write and the changed set is compared with the documented effect set of the address. "+
 		"Non-trivial: the write changed what at least one location reads. Distinct = (state, address, value) in the sweeps (by construction), hash of (state class, address, value class) for rapid cases.")
@@ -469,9 +479,9 @@ func TestC07(t *testing.T) {
 		}
 		c.Bulk("io-write", n, nt)
 		if thorough {
-			c.Exhaustive("11 machine states x FF00-FFFF x all 256 values, one write per fresh machine")
+			c.Exhaustive("12 machine states x FF00-FFFF x all 256 values, one write per fresh machine")
 		} else {
-			c.Exhaustive("11 machine states x FF00-FFFF x 16 values {walking bit, 00, FF, 7F, 0A, 55, AA, 2 pseudo-random}, one write per fresh machine")
+			c.Exhaustive("12 machine states x FF00-FFFF x 16 values {walking bit, 00, FF, 7F, 0A, 55, AA, 2 pseudo-random}, one write per fresh machine")
 		}
 	})
 
@@ -539,7 +549,7 @@ func TestC07(t *testing.T) {
 		}
 		c.Bulk("memory-write", n, nt)
 		if thorough {
-			c.Exhaustive("11 machine states x every address 0000-FEFF x {00, FF, pseudo-random}, 32 consecutive addresses per machine")
+			c.Exhaustive("12 machine states x every address 0000-FEFF x {00, FF, pseudo-random}, 32 consecutive addresses per machine")
 		}
 	})
 
